@@ -216,12 +216,23 @@ func (p *Prog) callSitesOf(f *ssa.Function) []callSite {
 	return out
 }
 
-// enclosing returns the outermost named function an anonymous function is nested in.
+// enclosing returns the outermost named function an anonymous function is nested in; a transparent helper (newfn.go:
+// a function that did not exist on the reference tree and has one call site) is folded into its caller.
 func enclosing(f *ssa.Function) *ssa.Function {
-	for f != nil && f.Parent() != nil {
-		f = f.Parent()
+	f = rawEnclosing(f)
+	for i := 0; i < 4 && f != nil && theProg != nil; i++ {
+		site := theProg.transparentSite(f)
+		if site == nil {
+			break
+		}
+		f = rawEnclosing(site.Parent())
 	}
 	return f
+}
+
+func inCanopyRaw(f *ssa.Function) bool {
+	f = rawEnclosing(origin(f))
+	return f != nil && f.Pkg != nil && isCanopyPath(f.Pkg.Pkg.Path())
 }
 
 func inCanopy(f *ssa.Function) bool {
@@ -304,6 +315,21 @@ func sortedFuncs(m map[*ssa.Function]bool) []*ssa.Function {
 
 // instrs iterates over all instructions of a function in block order.
 func instrs(f *ssa.Function, fn func(ssa.Instruction)) {
+	if theProg != nil && theProg.anyTransparent() {
+		// virtual inlining at the iteration level (newfn.go): a transparent helper's instructions are visited as part of
+		// its single caller and never on their own
+		if theProg.transparentSite(f) != nil {
+			return
+		}
+		for _, g := range bodyFuncs(f, false) {
+			for _, b := range g.Blocks {
+				for _, in := range b.Instrs {
+					fn(in)
+				}
+			}
+		}
+		return
+	}
 	for _, b := range f.Blocks {
 		for _, in := range b.Instrs {
 			fn(in)
